@@ -11,7 +11,8 @@ import hashlib, os, shutil, subprocess, sys, sysconfig, json, glob
 REPO = os.environ.get('DADI_REPO', '/repo')
 VERIF = os.path.dirname(os.path.dirname(os.path.abspath(__file__)))
 BUILD = os.path.join(VERIF, 'build')
-OVERLAY = os.path.join(BUILD, 'overlay')
+# the registered checks always use /repo; a scratch copy (DADI_REPO=/tmp/...) gets its own overlay directory
+OVERLAY = os.path.join(BUILD, 'overlay' if REPO == '/repo' else 'overlay_' + hashlib.md5(REPO.encode()).hexdigest()[:8])
 PY = '/venv/bin/python'
 
 KERNEL_SRCS = ['integration1D.c', 'integration2D.c', 'integration3D.c',
